@@ -934,7 +934,12 @@ impl<'c, 's> Run<'c, 's> {
             None => return,
         };
         let body = &f[12..n - 1];
-        let (mq, ms) = (self.nodes[ni].m_eid_req, self.nodes[ni].m_eid_resp);
+        // "the endpoint's current EID" = what the context has stored (whether that is the right
+        // value after the node's history is C13's question, not C07's)
+        let (mq, ms) = {
+            let nd = &self.nodes[ni];
+            (Some(nd.ctx.get_request().get_eid()), Some(nd.ctx.get_response().get_eid()))
+        };
         if ms.is_some() && ms != Some(0) {
             self.st.probe("c07-eid-from-history-nonzero");
         }
